@@ -346,6 +346,13 @@ Fixpoint overridden {F : Type} (sel : mw -> option F) (i : nat) (st : list mw) :
   | w :: st' => match sel w with Some _ => i :: overridden sel (S i) st' | None => overridden sel (S i) st' end
   end.
 
+(* declarative reading of a chain of hooks: applied in registration order, each to its predecessor's output
+   (a hook that is not overridden - or that raises - contributes nothing) *)
+Definition fold_hook {X : Type} (sel : mw -> option (X -> option X)) (st : list mw) (x : X) : X :=
+  fold_left (fun x w => match sel w with
+                        | Some f => match f x with Some y => y | None => x end
+                        | None => x end) st x.
+
 (* hypotheses of the property theorems: no hook of the given slot raises *)
 Definition total_hook {X : Type} (sel : mw -> option (X -> option X)) (st : list mw) : Prop :=
   Forall (fun w => match sel w with Some f => forall x, f x <> None | None => True end) st.
